@@ -4,6 +4,7 @@ package main
 
 import (
 	"fmt"
+	"go/constant"
 	"go/token"
 	"go/types"
 	"sort"
@@ -830,12 +831,12 @@ func propC03(r *Run, w *World) {
 			var seenGuards []string
 			for _, g := range GuardsAt(b.Block()) {
 				seenGuards = append(seenGuards, g.String())
-				if relatesBoth(g.Cond, tA, tB, w) {
+				if relatesBoth(g.Cond, tA, tB, w) && impliesStrict(g.Cond, g.Pol, w, 0) {
 					guarded = true
 				}
 			}
-			r.Check(guarded, key, b.Pos(), "guarded by a comparison of both operands",
-				fmt.Sprintf("uint32 subtraction %s is not dominated by a comparison relating %s and %s (guards in force: %v); a late or duplicate sequence wraps to ~2^32", Term(b), tA, tB, seenGuards))
+			r.Check(guarded, key, b.Pos(), "guarded by a strict ordering comparison of both operands",
+				fmt.Sprintf("uint32 subtraction %s is not dominated by a strict ordering test relating %s and %s (guards in force: %v); a late or duplicate (equal) sequence wraps to ~2^32", Term(b), tA, tB, seenGuards))
 		})
 	}
 	// R2
@@ -1006,6 +1007,55 @@ func relatesBoth(cond ssa.Value, tA, tB string, w *World) bool {
 				return true
 			}
 		}
+	}
+	return false
+}
+
+// impliesStrict: "v has truth value pol" can only come from strict comparisons (<, >, or a
+// comparator built from them), never from a negated strict test or a non-strict one: equal
+// operands must not pass the guard.
+func impliesStrict(v ssa.Value, pol bool, w *World, depth int) bool {
+	if depth > 5 {
+		return false
+	}
+	switch x := v.(type) {
+	case *ssa.Const:
+		if x.Value == nil || x.Value.Kind() != constant.Bool {
+			return false
+		}
+		return constant.BoolVal(x.Value) != pol // this value cannot be the one that lets the guard pass
+	case *ssa.UnOp:
+		if x.Op == token.NOT {
+			return impliesStrict(x.X, !pol, w, depth+1)
+		}
+	case *ssa.BinOp:
+		switch x.Op {
+		case token.LSS, token.GTR:
+			return pol
+		case token.LEQ, token.GEQ:
+			return !pol
+		}
+		return false
+	case *ssa.Phi:
+		for _, e := range x.Edges {
+			if !impliesStrict(e, pol, w, depth+1) {
+				return false
+			}
+		}
+		return len(x.Edges) > 0
+	case *ssa.Call:
+		f := x.Call.StaticCallee()
+		if f == nil || !w.isRepoFn(f) {
+			return false
+		}
+		rets := returnsOf(f)
+		for _, ret := range rets {
+			vals := returnedValues(ret)
+			if len(vals) != 1 || !impliesStrict(vals[0], pol, w, depth+1) {
+				return false
+			}
+		}
+		return len(rets) > 0
 	}
 	return false
 }
